@@ -8,7 +8,7 @@ import subprocess
 from .weave import REPO
 
 _KANI_CACHE = {}
-PROBED = {'C01', 'C04', 'C06', 'C07', 'C10', 'C11', 'C12', 'C13', 'C14', 'C15', 'C16', 'C17', 'C18'}
+PROBED = {'C01', 'C02', 'C04', 'C06', 'C07', 'C10', 'C11', 'C12', 'C13', 'C14', 'C15', 'C16', 'C17', 'C18'}
 
 
 def _run(env_extra, timeout=1500):
